@@ -1,5 +1,6 @@
 """C07 - UP-chosen identifiers are unique among live users and are those programmed."""
 import itertools
+import random
 from lib import *
 
 TARGETS = ["Props/C07.vo", "Run/Eval_C07.vo"]
@@ -685,6 +686,41 @@ def run(tier, seed, replay=None):
                 ck.tie("race-enabled harness runs the stress to completion", False, txt[-1500:])
         except HarnessError as e:
             ck.tie("race-enabled harness builds", False, str(e)[-1500:])
+    # agent level (real handlers + real bess plug-in, L1 harness): along random histories with UP-chosen TEIDs - incl.
+    # modifications that remove a PDR which is not the last one of its session - the TEIDs in use are exactly those of
+    # the live CHOOSE PDRs, all non-zero and pairwise distinct, and each Created PDR reports the TEID that is stored
+    if replay is None:
+        try:
+            import l1
+            from props.l1common import run_l1
+            lcases = []
+            for k in range(120 if tier == "quick" else 1500):
+                sub = random.Random(rng.getrandbits(64))
+                case, intents, views = l1.random_history(sub, cfg=l1.default_cfg(), length=sub.choice([10, 18, 30]), restarts=False)
+                lcases.append((case, intents))
+            lobs = run_l1(build_harness(), [c[0] for c in lcases], workers=8, tag="c07l1")
+            for (case, intents), ob in zip(lcases, lobs):
+                ck.evaluations += 1
+                bad = None
+                for i, o in enumerate(ob):
+                    if "panic" in o or o.get("blocked") or "pools" not in o:
+                        break
+                    own = [(s_["lseid"], p_["id"], p_["teid"]) for s_ in o["store"] for p_ in s_["pdrs"] if p_["choose"]]
+                    teids = [t for _, _, t in own]
+                    if 0 in teids:
+                        bad = ("agent:chosen-teid-zero", f"event {i}: a UP-chosen TEID is 0: {own}", i)
+                    elif len(set(teids)) != len(teids):
+                        bad = ("agent:teid-held-twice", f"event {i}: two live PDRs hold the same UP-chosen TEID: {own}", i)
+                    elif sorted(o["pools"]["teids"]) != sorted(teids):
+                        bad = ("agent:teids-in-use-differ", f"event {i} ({intents[i].get('op')}/{intents[i].get('kind', '')}): generator holds {sorted(o['pools']['teids'])}, "
+                               f"live CHOOSE PDRs hold {sorted(teids)}", i)
+                    if bad:
+                        break
+                if bad:
+                    ck.fail(bad[0], bad[1], {"input": case, "event": bad[2]})
+            ck.notes["agent_level_histories"] = len(lcases)
+        except HarnessError as e:
+            ck.tie("agent-level histories run", False, str(e)[-800:])
     return ck.finish()
 
 
